@@ -204,7 +204,7 @@ theorem stepOK_rangeRead2 (hR : R s a) (ht : t < s.pcs.length) (hpc : s.pc t = .
     refine R_quiet' hR ht hlin (sameData_unlock _) hR.g.nofault (MuStep.unlock hT.2 rfl) ?_ (hunp _)
       (hunl _ (rangeNext_ne_ladMiss _ _))
     rw [T_rangeNext_iff]
-    exact ⟨hT.1, Own_unlock _ _⟩
+    exact ⟨hT.1, Own_unlock _ _, RangeHold.snapshot rfl hR.g.keysR hR.g.boundR⟩
 
 theorem stepOK_rangeStore {dm : List (K × EId)} (hR : R s a) (ht : t < s.pcs.length)
     (hpc : s.pc t = .rangeStore dm) : StepOK menu s a t := by
@@ -221,7 +221,8 @@ theorem stepOK_rangeStore {dm : List (K × EId)} (hR : R s a) (ht : t < s.pcs.le
   rw [rangeStore_update_eq hdm]
   refine R_promote hR ht hlin hprom (by rw [hpc]; rfl) ?_ ?_
   · rw [T_rangeNext_iff]
-    exact ⟨hidle, Own_unlock _ _⟩
+    exact ⟨hidle, Own_unlock _ _, RangeHold.snapshot hdm (by rw [hdm]; exact hR.g.keysD)
+      (by rw [hdm]; exact hR.g.boundD)⟩
   · intro e he
     rw [unlinkedPc_of_idle hidle (rangeNext_ne_ladMiss _ _)] at he; cases he
 
